@@ -454,6 +454,8 @@ func GenCase(t *rapid.T, kinds []string) Case {
 func Enumerate(t world.T, cs Case, maxPreempt int, fixed []int, after func(w *world.World, r *Result), onResult func(Result)) int {
 	count := 0
 	prefix := append([]int{}, fixed...)
+	var known []int // branching at the positions of prefix, from the run that produced it
+	first, retries := true, 0
 	for {
 		var branching []int
 		var taken []int
@@ -471,7 +473,7 @@ func Enumerate(t world.T, cs Case, maxPreempt int, fixed []int, after func(w *wo
 				v = prefix[k]
 			}
 			if maxPreempt >= 0 && preempts >= maxPreempt && cur >= 0 {
-				if k < len(fixed) && v != 0 {
+				if k < len(prefix) && v != 0 {
 					invalid = true
 				}
 				taken = append(taken, 0)
@@ -489,11 +491,25 @@ func Enumerate(t world.T, cs Case, maxPreempt int, fixed []int, after func(w *wo
 			branching = append(branching, b)
 			return (def + v) % b
 		}, after)
-		if invalid || len(taken) < len(fixed) {
-			return count // this subtree does not exist
+		if invalid || len(taken) < len(prefix) {
+			if first {
+				return count // this subtree does not exist
+			}
+			// the prefix did not replay the way it was recorded (which task is seen blocked on a lock first is a matter
+			// of timing): try again, then give the prefix up as if it were a leaf and move on to its siblings
+			if retries < 2 {
+				retries++
+				continue
+			}
+			taken, branching = append([]int{}, prefix...), append([]int{}, known...)
+			for len(branching) < len(taken) {
+				branching = append(branching, 1)
+			}
+		} else {
+			count++
+			onResult(r)
 		}
-		count++
-		onResult(r)
+		first, retries = false, 0
 		i := len(taken) - 1
 		for ; i >= len(fixed); i-- {
 			if taken[i]+1 < branching[i] {
@@ -504,6 +520,7 @@ func Enumerate(t world.T, cs Case, maxPreempt int, fixed []int, after func(w *wo
 			return count
 		}
 		prefix = append(append([]int{}, taken[:i]...), taken[i]+1)
+		known = append([]int{}, branching[:i+1]...)
 	}
 }
 
